@@ -443,6 +443,164 @@ func c16SessionBornDuringRemoval(ctx *Ctx) {
 	}
 }
 
+// ---- (1d) the pool table of a session against Model/Pool.v: a session is born while its bootstrap goroutines are slow
+// (per-host STARTUP delays for the session's protocol version only, so the control connection is never slowed down) and
+// the peers table changes twice meanwhile.  Observed: the table itself (hook VerifSessionPools) and the routing. ----
+func c16PoolTable(ctx *Ctx) {
+	r := ctx.Rng
+	all := []int{1, 2, 3, 4}
+	for round := 0; round < ctx.Scale(2, 14); round++ {
+		t0 := []int{1}
+		for h := 2; h <= 4; h++ {
+			if r.Intn(3) != 0 {
+				t0 = append(t0, h)
+			}
+		}
+		e := newC16Env(fmt.Sprintf("p%dr%d", ctx.Seed%1000, round), all, t0, nil)
+		e.waitControl(5 * time.Second)
+		withControl := func(t []int) []int {
+			eff := append([]int{}, t...)
+			if c := e.controlHost(); c != 0 {
+				found := false
+				for _, h := range eff {
+					found = found || h == c
+				}
+				if !found {
+					eff = append(eff, c)
+				}
+			}
+			sort.Ints(eff)
+			return eff
+		}
+		eff := withControl(t0)
+		e.be.SetTopology(eff...)
+		// delays of the session's own connections, per host
+		delay := map[int]int{}
+		e.be.SlowStartupVersion = 3
+		for _, h := range all {
+			delay[h] = []int{0, 500, 1000}[r.Intn(3)]
+			e.be.SetSlowStartupHost(h, time.Duration(delay[h])*time.Millisecond)
+		}
+		type tev struct {
+			at   int // ms after birth
+			kind int64
+			h    int
+		}
+		var timeline []tev
+		for _, h := range eff {
+			timeline = append(timeline, tev{delay[h] + 1, 1, h}) // its bootstrap goroutine stores
+		}
+		boot := append([]int{}, eff...)
+		cl, err := px.Dial(e.env.Addr)
+		if err != nil {
+			panic(err)
+		}
+		if err := cl.Startup(primitive.ProtocolVersion3, ""); err != nil {
+			panic(err)
+		}
+		born := time.Now()
+		_ = cl.Send(primitive.ProtocolVersion3, 1, &message.Query{Query: "SELECT v FROM ks.t WHERE k = 'tok:" + e.tag + "first'", Options: &message.QueryOptions{}})
+		for _, at := range []int{250, 750} {
+			time.Sleep(time.Until(born.Add(time.Duration(at) * time.Millisecond)))
+			var t []int
+			for _, h := range all {
+				if r.Intn(2) == 0 {
+					t = append(t, h)
+				}
+			}
+			e.be.SetTopology(t...)
+			e.be.DropRegistered()
+			e.waitControl(5 * time.Second)
+			next := withControl(t)
+			e.be.SetTopology(next...)
+			in := func(l []int, h int) bool {
+				for _, x := range l {
+					if x == h {
+						return true
+					}
+				}
+				return false
+			}
+			for _, h := range next {
+				if !in(eff, h) {
+					timeline = append(timeline, tev{at, 2, h})
+				}
+			}
+			for _, h := range eff {
+				if !in(next, h) {
+					timeline = append(timeline, tev{at, 3, h})
+				}
+			}
+			eff = next
+		}
+		time.Sleep(time.Until(born.Add(1400 * time.Millisecond)))
+		if f, _ := cl.Next(5 * time.Second); f == nil {
+			ctx.Count("pool-table:first-request-unanswered")
+		}
+		for _, h := range all {
+			e.be.SetSlowStartupHost(h, 0)
+		}
+		time.Sleep(150 * time.Millisecond)
+		pools := proxy.VerifSessionPools(e.env.Proxy, primitive.ProtocolVersion3, "", "")
+		sort.SliceStable(timeline, func(i, j int) bool { return timeline[i].at < timeline[j].at })
+		bootV := []hv.V{hv.I(0)}
+		for _, h := range boot {
+			bootV = append(bootV, hv.I(int64(h)))
+		}
+		evs := []hv.V{hv.L(bootV...)}
+		for _, t := range timeline {
+			evs = append(evs, hv.L(hv.I(t.kind), hv.I(int64(t.h))))
+		}
+		var bits []hv.V
+		for _, h := range all {
+			alive, present := pools[fmt.Sprintf("%s:%d", e.be.IP(h), e.be.Port)]
+			b := int64(0)
+			if present && alive {
+				b = 1
+			}
+			bits = append(bits, hv.I(b))
+		}
+		ctx.Emit(hv.L(hv.I(7), hv.L(evs...), intsV(all)), hv.L(bits...), fmt.Sprintf("pool-table: %d events", len(evs)))
+		ctx.Count("pool-table:history")
+		if pools == nil {
+			ctx.Count("pool-table:no-session")
+		}
+		// and the routing of that session
+		old := e.cl
+		e.cl, e.ver = cl, primitive.ProtocolVersion3
+		got := e.settle(eff, 4*time.Second)
+		ctx.Emit(hv.L(hv.I(1), intsV(boot), hv.L(hv.L(intsV(eff), intsV(all)))), hv.L(intsV(got)), "tables:session-born-while-the-table-changes-twice")
+		old.Close()
+		e.close()
+	}
+}
+
+// ---- (1e) leastBusyConn on constructed slots ----
+func c16LeastBusy(ctx *Ctx) {
+	r := ctx.Rng
+	for i := 0; i < ctx.Scale(150, 5000); i++ {
+		n := r.Intn(7)
+		sl := make([]int32, n)
+		var vs []hv.V
+		for j := range sl {
+			switch r.Intn(5) {
+			case 0:
+				sl[j] = -1
+			case 1:
+				sl[j] = int32(r.Intn(3))
+			default:
+				sl[j] = int32(r.Intn(2048))
+			}
+			if r.Intn(40) == 0 {
+				sl[j] = 2147483646
+			}
+			vs = append(vs, hv.I(int64(sl[j])))
+		}
+		ctx.Emit(hv.L(hv.I(6), hv.L(vs...)), hv.L(hv.I(int64(proxycore.VerifLeastBusy(sl)))), "least-busy")
+		ctx.Count(fmt.Sprintf("least-busy:%d-slots", n))
+	}
+}
+
 // ---- (2) failover with several hosts down at once, (3) outage samples ----
 func c16Failover(ctx *Ctx) {
 	r := ctx.Rng
@@ -721,6 +879,8 @@ func genC16(ctx *Ctx) {
 	par(5, func(c *Ctx) { c16EventDriven(c, 2) })
 	par(6, c16HeartbeatReplaced)
 	par(7, c16SessionBornDuringRemoval)
+	par(8, c16PoolTable)
+	c16LeastBusy(ctx)
 	par(3, c16Readiness)
 	par(4, c16Heartbeat)
 	c16Policy(ctx)
